@@ -34,7 +34,7 @@ ASSUMPTIONS = [
     "exceptions raised inside datagram_received reach the event loop's exception handler, as with asyncio's selector "
     "datagram transport (reproduced by the simulated transport: delivery runs inside a loop callback)",
 ]
-PROBES = ["payload_binding_named_like_a_header_binding", "notification_over_1024_octets", "foreign_community_with_non_ascii_octets", "first_datagram_other_version", "two_listeners", "foreign_community", "truncated", "garbage", "wrong_outer_tag", "bitflip", "other_version", "dup_arrival", "lost",
+PROBES = ["same_octets_twice_at_the_same_instant", "payload_binding_named_like_a_header_binding", "notification_over_1024_octets", "foreign_community_with_non_ascii_octets", "first_datagram_other_version", "two_listeners", "foreign_community", "truncated", "garbage", "wrong_outer_tag", "bitflip", "other_version", "dup_arrival", "lost",
           "reordered", "bad_then_valid", "callback_raises", "slow_callback_overlap", "zero_payload", "eight_payload",
           "long_length_forms", "every_value_kind", "duplicate_payload_oid", "four_emitters", "ipv6_peers",
           "indefinite_no_eoc_reached"]
@@ -89,7 +89,8 @@ def plan_for(tier: str, seed: int, i: int) -> dict:
             payload.append((SYSUPTIME, ("tt", xr.randrange(0, 2**32))))
         elif yr < 0.08:
             payload.append((TRAPOID, ("oid", (1, 3, 6, 1, 4, 1, 99, 1, xr.randrange(1, 9)))))
-        d = {"n": n, "t": t, "emitter": rng.randrange(n_em), "listener": li, "cls": cls,
+        twice = xr.random() < 0.05
+        d = {"n": n, "t": t, "twice": twice, "emitter": rng.randrange(n_em), "listener": li, "cls": cls,
              "uptime": 100000 + n * 7919, "trap_oid": (1, 3, 6, 1, 4, 1, 8072, 2, 3, 0, 1 + n % 5),
              "payload": payload, "rid": rng.choice([0, 1, 2**31 - 1, -(2**31), rng.randrange(-2**31, 2**31)]),
              "lf": [rng.randrange(0, 4) for _ in range(6)] if rng.random() < 0.2 else None,
@@ -239,8 +240,10 @@ def execute(plan: dict) -> dict:
         dst = (listen_ip, plan["listeners"][d["listener"]]["port"])
         rec = {"n": d["n"], "cls": cls, "raw": raw, "vbs": vbs, "src": src, "listener": d["listener"], "d": d}
         records.append(rec)
-        pending.setdefault((src, dst, raw), []).append(rec)
-        w.net.inject(src, dst, raw, delay_ticks=d["t"], direction="a2c")
+        # "twice": the emitter sends the very same octets twice at the same instant (a retransmitting relay): two arrivals
+        for _ in range(2 if d.get("twice") else 1):
+            pending.setdefault((src, dst, raw), []).append(rec)
+            w.net.inject(src, dst, raw, delay_ticks=d["t"], direction="a2c")
         t_last = max(t_last, d["t"])
 
     async def main() -> None:
@@ -348,6 +351,7 @@ def execute(plan: dict) -> dict:
                                                      for x in arr_cls[:k]) for k, c in enumerate(arr_cls))
     kinds_seen = set(v[0] for r in records if r["cls"] == "valid" for _, v in r["vbs"][2:])
     probes = {
+        "same_octets_twice_at_the_same_instant": int(any(d.get("twice") and d["cls"] == "valid" for d in plan["datagrams"])),
         "payload_binding_named_like_a_header_binding": int(any(
             r["cls"] == "valid" and any(tuple(o) in (SYSUPTIME, TRAPOID) for o, _ in r["vbs"][2:]) for r in arrivals)),
         "notification_over_1024_octets": int(any(a["cls"] == "valid" and len(a["raw"]) > 1024 for a in arrivals)),
